@@ -3,6 +3,7 @@ package harness
 import (
 	"context"
 	"fmt"
+	"io"
 	"sort"
 	"strings"
 	"sync"
@@ -33,8 +34,10 @@ import (
 // protobuf marshal/unmarshal round trip). No sockets: everything runs inside a synctest
 // bubble, the retry back-off costs no wall time. Faults: break a stream now / after n
 // more messages (Recv returns codes.Unavailable, everything in flight is dropped, the
-// handler's context is cancelled), fail the next k re-establishments (dial error or first
-// Recv error), fail them until the back-off gives up, let a dial hang while writes go on
+// handler's context is cancelled) — or END it CLEANLY (clean=1: Recv returns io.EOF, what the
+// client sees when the server side finishes the stream with status OK: a draining server, a
+// proxy) —, fail the next k re-establishments (dial error or first Recv error, the latter
+// again either way), fail them until the back-off gives up, let a dial hang while writes go on
 // (hold … heal), replace the serving process (restart: new empty state, old bookmarks are
 // foreign), let virtual time pass (age). Compared op by op with Cosi.Model.RWatch
 // (Cosi.Driver.RWatch) and, on every recv, the concatenated client-side stream with a
@@ -86,7 +89,7 @@ func (*rwEng) Cases(thorough bool) int {
 }
 
 func (*rwEng) Rule() string {
-	return "corpus: for single / kind / aggregated (bootstrap, bootstrap-bookmark, label selector) watches a fixed script of writes and receives with a transport failure inserted at EVERY op position, combined with 0,1,2,3,5 writes during a hanging re-establishment (history 4, gap 1: straddles the bookmark window and the overrun bound), 0..2 failed re-establishments (dial / first Recv), two wire/buffer settings, plus all pairs of failure positions; random: history 1..6, up to 2 remote watches, writes, receives, failures now / after n messages, failed re-establishments, hanging dials with writes, retries disabled, persistent failure until the back-off stops, ageing beyond MaxElapsedTime, server restarts; non-trivial = >= 1 failure injected, >= 3 deliveries received and (a re-issued Watch call was seen or an Errored was delivered); distinct by hash of the op lines"
+	return "corpus: for single / kind / aggregated (bootstrap, bootstrap-bookmark, label selector) watches a fixed script of writes and receives with a transport failure inserted at EVERY op position, combined with 0,1,2,3,5 writes during a hanging re-establishment (history 4, gap 1: straddles the bookmark window and the overrun bound), 0..2 failed re-establishments (dial / first Recv), two wire/buffer settings, plus all pairs of failure positions; random: history 1..6, up to 2 remote watches, writes, receives, failures now / after n messages — a third of them a CLEAN end of stream (io.EOF) instead of a transport error, also for the first Recv of failed re-establishments —, failed re-establishments, hanging dials with writes, retries disabled, persistent failure until the back-off stops, ageing beyond MaxElapsedTime, server restarts; non-trivial = >= 1 failure injected, >= 3 deliveries received and (a re-issued Watch call was seen or an Errored was delivered); distinct by hash of the op lines"
 }
 
 func (*rwEng) NonTrivial(c Case, out []string) bool {
@@ -144,6 +147,7 @@ type rwWatchState struct {
 	reestFail int
 	modeFirst bool
 	forever   bool
+	clean     bool // Recv errors of the current fault are io.EOF (clean end of stream), not a status error
 	hold      bool
 	ended     bool // the client goroutine returned (inferred)
 }
@@ -214,9 +218,10 @@ func rwRoundTrip[T proto.Message](m T, fresh T) T {
 	return fresh
 }
 
-// handErrLocked returns a transport error to the client and starts waiting for its
-// reaction (a re-issued Watch call within the largest possible back-off delay, or nothing).
-func (s *rwShim) handErrLocked(ws *rwWatchState, ctx context.Context) error {
+// handErrLocked returns a transport error (or, for a clean end of stream, io.EOF from Recv) to
+// the client and starts waiting for its reaction (a re-issued Watch call within the largest
+// possible back-off delay, or nothing).
+func (s *rwShim) handErrLocked(ws *rwWatchState, ctx context.Context, dial bool) error {
 	ws.stream = nil
 
 	if ctx.Err() == nil {
@@ -224,6 +229,10 @@ func (s *rwShim) handErrLocked(ws *rwWatchState, ctx context.Context) error {
 	}
 
 	s.signal()
+
+	if ws.clean && !dial {
+		return io.EOF
+	}
 
 	return status.Error(codes.Unavailable, "injected transport failure")
 }
@@ -268,8 +277,8 @@ func (s *rwShim) Watch(ctx context.Context, req *v1alpha1.WatchRequest, _ ...grp
 				ws.reestFail--
 			}
 
-			if ws.forever || !ws.modeFirst {
-				err := s.handErrLocked(ws, ctx)
+			if !ws.modeFirst {
+				err := s.handErrLocked(ws, ctx, true)
 				s.mu.Unlock()
 
 				return nil, err
@@ -351,7 +360,7 @@ func (x rwCliStream) Recv() (*v1alpha1.WatchResponse, error) {
 
 	if st.failFirst || st.failed {
 		st.failed = true
-		err := s.handErrLocked(st.ws, st.cctx)
+		err := s.handErrLocked(st.ws, st.cctx, false)
 		s.mu.Unlock()
 
 		return nil, err
@@ -365,7 +374,7 @@ func (x rwCliStream) Recv() (*v1alpha1.WatchResponse, error) {
 		defer s.mu.Unlock()
 
 		if st.failed { // the failure won the race: the message is lost
-			return nil, s.handErrLocked(st.ws, st.cctx)
+			return nil, s.handErrLocked(st.ws, st.cctx, false)
 		}
 
 		st.recvd++
@@ -390,13 +399,13 @@ func (x rwCliStream) Recv() (*v1alpha1.WatchResponse, error) {
 		s.mu.Lock()
 		defer s.mu.Unlock()
 
-		return nil, s.handErrLocked(st.ws, st.cctx)
+		return nil, s.handErrLocked(st.ws, st.cctx, false)
 	case <-st.done:
 		s.mu.Lock()
 		defer s.mu.Unlock()
 
 		if st.failed {
-			return nil, s.handErrLocked(st.ws, st.cctx)
+			return nil, s.handErrLocked(st.ws, st.cctx, false)
 		}
 
 		err := st.err
@@ -423,7 +432,7 @@ func (x rwCliStream) Recv() (*v1alpha1.WatchResponse, error) {
 			return nil, err
 		}
 
-		_ = s.handErrLocked(st.ws, st.cctx)
+		_ = s.handErrLocked(st.ws, st.cctx, false)
 
 		return nil, err
 	case <-st.ctx.Done():
@@ -789,12 +798,17 @@ func (e *rwEng) Exec(t *testing.T, c Case) []string {
 				case "recv":
 					lw := watches[a["w"]]
 					if lw == nil {
-						return "rv pfx=ok d=none"
+						return "rv pfx=ok e=0 d=none"
 					}
 
 					d := lw.recv()
+					e := 0
 
-					return "rv pfx=" + lw.pfx() + " d=" + d
+					if strings.Contains(d, "errored") {
+						e = 1
+					}
+
+					return fmt.Sprintf("rv pfx=%s e=%d d=%s", lw.pfx(), e, d)
 				case "fail":
 					shim.mu.Lock()
 					defer shim.mu.Unlock()
@@ -805,7 +819,7 @@ func (e *rwEng) Exec(t *testing.T, c Case) []string {
 					}
 
 					ws.reestFail, ws.forever = a.Int("reest"), a["reest"] == "inf"
-					ws.modeFirst, ws.hold = a["mode"] == "first", a["hold"] == "1"
+					ws.modeFirst, ws.hold, ws.clean = a["mode"] == "first", a["hold"] == "1", a["clean"] == "1"
 					ws.failAfter = a.Int("after")
 
 					if ws.failAfter == 0 {
@@ -838,6 +852,7 @@ func (e *rwEng) Exec(t *testing.T, c Case) []string {
 					for _, ws := range shim.watches {
 						if ws.stream != nil && !ws.stream.failed && !ws.ended {
 							ws.failAfter = 0
+							ws.clean = false
 							ws.stream.failLocked()
 						}
 					}
@@ -966,10 +981,15 @@ func (s *rwScript) destroy(id string) {
 	s.vers[id] = 0
 }
 
-// rwFault is the block inserted at a failure position: break the stream; with outage > 0
-// the first re-establishment hangs while `outage` writes to another id go on.
-func rwFault(s *rwScript, outage, reest int, first bool) {
+// rwFault is the block inserted at a failure position: break the stream (clean: end it with
+// io.EOF instead of a transport error); with outage > 0 the first re-establishment hangs while
+// `outage` writes to another id go on.
+func rwFault(s *rwScript, outage, reest int, first, clean bool) {
 	op := "fail w=1 after=0"
+	if clean {
+		op += " clean=1"
+	}
+
 	if reest > 0 {
 		op += fmt.Sprintf(" reest=%d", reest)
 
@@ -994,7 +1014,7 @@ func rwFault(s *rwScript, outage, reest int, first bool) {
 }
 
 // rwBase builds the corpus script with fault blocks inserted before the ops numbered in `at`.
-func rwBase(wstart string, at map[int][3]int) []string {
+func rwBase(wstart string, at map[int][4]int) []string {
 	s := &rwScript{}
 	s.write("a", "k1:v1")
 	s.write("b", "")
@@ -1003,7 +1023,7 @@ func rwBase(wstart string, at map[int][3]int) []string {
 	pos := 0
 	step := func(f func()) {
 		if x, ok := at[pos]; ok {
-			rwFault(s, x[0], x[1], x[2] == 1)
+			rwFault(s, x[0], x[1], x[2] == 1, x[3] == 1)
 		}
 
 		pos++
@@ -1056,7 +1076,7 @@ func (*rwEng) Corpus(thorough bool) []Case {
 	}
 
 	n := 0
-	add := func(wire, buf int, fl string, at map[int][3]int, tag string) {
+	add := func(wire, buf int, fl string, at map[int][4]int, tag string) {
 		cases = append(cases, Case{
 			Header: fmt.Sprintf("# engine=rwatch initcap=4 maxcap=4 gap=1 wire=%d case=corpus-%d-%s", wire, n, tag),
 			Ops:    rwBase(fmt.Sprintf("wstart w=1 ns=n1 typ=R1 %s buf=%d retry=1", fl, buf), at),
@@ -1072,7 +1092,7 @@ func (*rwEng) Corpus(thorough bool) []Case {
 			// one failure at every position x outage lengths around the bookmark window
 			for p := 0; p < rwBaseSteps; p++ {
 				for _, outage := range []int{0, 1, 2, 3, 5} {
-					add(set[0], set[1], fl, map[int][3]int{p: {outage, (p + outage) % 3, p % 2}}, fmt.Sprintf("p%d-o%d", p, outage))
+					add(set[0], set[1], fl, map[int][4]int{p: {outage, (p + outage) % 3, p % 2, (p/2 + outage) % 2}}, fmt.Sprintf("p%d-o%d", p, outage))
 				}
 			}
 		}
@@ -1085,7 +1105,7 @@ func (*rwEng) Corpus(thorough bool) []Case {
 						continue
 					}
 
-					add(set[0], set[1], fl, map[int][3]int{p: {0, 0, 0}, q: {(p + q) % 3, q % 2, 0}}, fmt.Sprintf("p%d-q%d", p, q))
+					add(set[0], set[1], fl, map[int][4]int{p: {0, 0, 0, p % 2}, q: {(p + q) % 3, q % 2, q % 2, (p + q/2) % 2}}, fmt.Sprintf("p%d-q%d", p, q))
 				}
 			}
 		}
@@ -1110,6 +1130,55 @@ func (*rwEng) Corpus(thorough bool) []Case {
 		Case{Header: "# engine=rwatch initcap=1 maxcap=1 gap=0 wire=0 case=quirk-C-two-errored", Ops: []string{
 			"wstart w=1 ns=n1 typ=R1 kind=kind buf=0 retry=1", mk("a"), mk("b"), mk("c"), mk("d"), mk("e"),
 			"recv w=1", "recv w=1", "recv w=1", "recv w=1", "fail w=1 after=0", "recv w=1", "recv w=1", "wstop w=1",
+		}},
+	)
+
+	// the SERVER's own watch failure (the inner watcher falls behind a history of 2 while the
+	// subscriber does not receive) must reach the subscriber of every kind of remote watch as an
+	// Errored event — for the single-resource watch too, which has no other use for ApiVersion 1
+	for _, fl := range []string{"kind=single id=a", "kind=kind", "kind=agg", "kind=single id=a tail=1"} {
+		s := &rwScript{}
+		s.write("a", "")
+		s.ops = append(s.ops, "wstart w=1 ns=n1 typ=R1 "+fl+" buf=0 retry=1", "recv w=1")
+		// more events of the watched resource than handler, transport and client goroutine hold …
+		for i := 0; i < 5; i++ {
+			s.write("a", "")
+		}
+
+		// … then the writers run away from the inner watcher
+		for i := 0; i < 5; i++ {
+			s.write("b", "")
+		}
+
+		s.ops = append(s.ops, "recv w=1", "recv w=1", "recv w=1", "recv w=1", "recv w=1", "recv w=1", "recv w=1", "recv w=1", "rstat w=1", "wstop w=1")
+		cases = append(cases, Case{Header: "# engine=rwatch initcap=2 maxcap=2 gap=0 wire=0 case=server-overrun-" + strings.ReplaceAll(fl, " ", "-"), Ops: s.ops})
+	}
+
+	// a CLEAN end of stream (io.EOF) in each situation in which the property demands a terminal
+	// Errored (no bookmark seen yet / retries disabled / back-off exhausted, also with the first
+	// Recv of every re-established stream ending cleanly), and one in which the watch must resume
+	for _, fl := range []string{"kind=single id=a", "kind=kind", "kind=agg", "kind=kind boot=1"} {
+		cases = append(cases, Case{Header: "# engine=rwatch initcap=4 maxcap=4 gap=1 wire=0 case=eos-no-bookmark-" + strings.ReplaceAll(fl, " ", "-"), Ops: []string{
+			mk("a"), "wstart w=1 ns=n1 typ=R1 " + fl + " buf=0 retry=1", "recv w=1", "fail w=1 after=0 clean=1", "recv w=1", mk("b"), "recv w=1",
+			"rstat w=1", "wstop w=1",
+		}})
+	}
+
+	cases = append(cases,
+		Case{Header: "# engine=rwatch initcap=4 maxcap=4 gap=1 wire=0 case=eos-retry-disabled", Ops: []string{
+			"wstart w=1 ns=n1 typ=R1 kind=kind buf=0 retry=0", mk("a"), "recv w=1", "fail w=1 after=0 clean=1", "recv w=1", mk("b"), "recv w=1",
+			"rstat w=1", "wstop w=1",
+		}},
+		Case{Header: "# engine=rwatch initcap=4 maxcap=4 gap=1 wire=0 case=eos-aged-watch", Ops: []string{
+			"wstart w=1 ns=n1 typ=R1 kind=kind buf=0 retry=1", mk("a"), "recv w=1", "age", "fail w=1 after=0 clean=1", "recv w=1", "rstat w=1", "wstop w=1",
+		}},
+		Case{Header: "# engine=rwatch initcap=4 maxcap=4 gap=1 wire=0 case=eos-every-reestablishment", Ops: []string{
+			"wstart w=1 ns=n1 typ=R1 kind=agg buf=0 retry=1", mk("a"), "recv w=1", "fail w=1 after=0 reest=inf mode=first clean=1", "recv w=1", mk("b"),
+			"recv w=1", "rstat w=1", "wstop w=1",
+		}},
+		Case{Header: "# engine=rwatch initcap=4 maxcap=4 gap=1 wire=1 case=eos-resumes", Ops: []string{
+			"wstart w=1 ns=n1 typ=R1 kind=kind buf=1 retry=1", mk("a"), "recv w=1", "fail w=1 after=1 reest=2 mode=first clean=1", mk("b"), mk("c"),
+			"recv w=1", "recv w=1", "recv w=1", "rstat w=1", "wstop w=1",
 		}},
 	)
 
@@ -1226,9 +1295,18 @@ func (e *rwEng) Gen(r *Rand, thorough bool, idx int) Case {
 			op := fmt.Sprintf("fail w=%d after=%d", l.w, Pick(r, []int{0, 0, 0, 1, 2}))
 			cost := 1
 
+			if r.Chance(1, 3) {
+				op += " clean=1" // the server side ends the stream with status OK: Recv returns io.EOF
+			}
+
 			switch {
 			case r.Chance(1, 25) && !foreverUsed:
 				op += " reest=inf"
+
+				if r.Chance(1, 2) {
+					op += " mode=first"
+				}
+
 				foreverUsed = true
 				budget = 0 // the clock jumps past MaxElapsedTime: nothing else may retry afterwards
 			case r.Chance(1, 3):
